@@ -526,6 +526,25 @@ def expand(ctx, state, col):
             judge_allowed(ctx, info, state, allowed2, col, note)
         if verdict(target, allowed2, got2, note):
             out.append((target, (tuple(sorted(batch + (target,))), revealed)))
+    # a scores holder that was filled when the batch was started: it still holds (excellent) scores for plates that are in
+    # the batch or observed by now; the selection must still be an allowed plate
+    stale = sorted(set(batch) | info.observed)
+    if legit and stale:
+        sc = dict(scores)
+        sc.update({n: -100.0 - i for i, n in enumerate(stale)})
+        note = {"target": None, "stale_scores_for": stale}
+        allowed4, got4 = call(sc, note)
+        if allowed4 != "raised":
+            col.count("calls with stale scores for batch / observed plates")
+            if allowed4 is None:
+                allowed4 = [] if got4 is None else [got4]
+            if got4 is None:
+                col.violation("C16|select|nothing-returned-though-allowed",
+                              f"k={k}: {allowed4} are allowed in batch {list(batch)} but select_next_plate returned nothing", _case(ctx, state, note))
+            elif got4 not in allowed4 or got4 in stale:
+                col.violation("C16|select|returned-plate-not-allowed",
+                              f"k={k}: select_next_plate returned {got4}, which the policy did not allow ({allowed4}) in batch {list(batch)} "
+                              f"(the holder also carries scores for the batch / observed plates {stale})", _case(ctx, state, note))
     # every allowed plate carries the WORST score of all remaining plates (ties among them): the minimum over the
     # allowed plates then equals the global maximum; the selection must still be an allowed plate
     if legit and len(legit) < len(remaining):
